@@ -485,6 +485,24 @@ class Interp:
             summ = (lambda r: json.dumps({"summary": True})) if op.get("summary") else None
             ccfg = ChildConfig(summary_generator=summ, serdes=self._serdes(op.get("serdes")))
             return [self._deliver(path, lambda: ctx.run_in_child_context(child_fn, name=name, config=ccfg), "child")]
+        if k == "shared_par":
+            # sibling branches that issue operations on the ENCLOSING context (its call counter is shared
+            # between threads); every operation is named by a label, its index depends on arrival order
+            labels = op["labels"]
+
+            def mk(label):
+                def run(_bctx):
+                    spath = (f"shared{label}",)
+
+                    def fn(step_ctx):
+                        ent = w.enter(spath, "step")
+                        w.exit(spath, returned=render(label))
+                        return label
+                    return self._deliver(spath, lambda: ctx.step(fn, name="p:shared" + label), "step")
+                return run
+            return [self._deliver(path, lambda: ctx.parallel([mk(x) for x in labels], name=name,
+                                                               config=ParallelConfig(completion_config=CompletionConfig.all_completed())),
+                                  "parallel")]
         if k in ("par", "map"):
             c = op.get("cfg", {})
             cc = None
@@ -618,6 +636,12 @@ def _check_fn(spec, state, ent):
         if isinstance(state, list):
             state.append(len(state))
         return state
+    if f == "nonecycle":
+        # "not visible yet" (None) on the first two polls, then a record that counts up
+        a = ent["attempt"] + 1
+        if a <= 2:
+            return None
+        return {"seen": repr(state), "poll": a}
     if f == "id":
         return state
     if f == "none":
